@@ -9,6 +9,8 @@ import (
 	"sync/atomic"
 	"time"
 
+	"github.com/influxdata/influxdb/coordinator"
+	"github.com/influxdata/influxdb/query"
 	"github.com/influxdata/influxql"
 
 	"verifharness/internal/ev"
@@ -195,6 +197,50 @@ func (h *hrun) grant(node int, name, db string, p influxql.Privilege) {
 	h.last = node
 	h.kinds["grant:"+p.String()] = true
 	h.step(hstep{Op: "set-privilege", Node: node, User: name, Arg: p.String() + " on " + db})
+}
+
+// adminStmt runs one administrator statement through the real
+// coordinator.StatementExecutor attached to node's meta client.
+func (h *hrun) adminStmt(node int, text string) error {
+	q, err := influxql.ParseQuery(text)
+	if err != nil {
+		return err
+	}
+	ex := query.NewExecutor()
+	ex.StatementExecutor = &coordinator.StatementExecutor{MetaClient: h.hc.cl.c[node]}
+	defer ex.Close()
+	for res := range ex.ExecuteQuery(q, query.ExecutionOptions{}, make(chan struct{})) {
+		if res.Err != nil {
+			return res.Err
+		}
+	}
+	return nil
+}
+
+// revoke executes REVOKE <p> ON <db> FROM <name>: it can only take rights away.
+func (h *hrun) revoke(node int, name, db string, p influxql.Privilege) {
+	if h.failed || !h.reach(node) || p == influxql.NoPrivileges {
+		return
+	}
+	if err := h.adminStmt(node, fmt.Sprintf("REVOKE %s ON %s FROM %s", p.String(), db, name)); err != nil {
+		h.fail("REVOKE %s ON %s FROM %s: %v", p, db, name, err)
+		return
+	}
+	u := h.m.users[name]
+	left := u.Grants[db] &^ p
+	if left == influxql.NoPrivileges {
+		delete(u.Grants, db)
+		delete(u.GrantS, db)
+	} else {
+		u.setGrant(db, left)
+	}
+	h.last = node
+	h.kinds["revoke:"+p.String()] = true
+	r.Count("revoke_statements_executed", 1)
+	h.step(hstep{Op: "REVOKE", Node: node, User: name, Arg: p.String() + " on " + db})
+	// what the user may do on that database now, asked through the same node
+	h.query(node, h.basic(name), "SELECT * FROM cpu", db)
+	h.write(node, h.basic(name), db)
 }
 
 func (h *hrun) setAdmin(node int, name string, admin bool) {
@@ -485,7 +531,11 @@ func randomHistory(h *hrun, seed int64) {
 		case k < 50:
 			h.setPw(x, name)
 		case k < 62:
-			h.grant(x, name, dbNames[g.Intn(2)], privs[g.Intn(len(privs))])
+			if g.Intn(2) == 0 {
+				h.revoke(x, name, dbNames[g.Intn(2)], privs[1+g.Intn(3)])
+			} else {
+				h.grant(x, name, dbNames[g.Intn(2)], privs[g.Intn(len(privs))])
+			}
 		case k < 68:
 			h.setAdmin(x, name, !u.Admin)
 		case k < 76:
